@@ -68,7 +68,8 @@ var statusProto = map[keyset.KeyStatus]tinkpb.KeyStatusType{
 
 // drawKeyset builds a keyset of 1..5 usable, serializable keys of one class with keyset.Manager.
 func drawKeyset(rt *rapid.T) *ksCase {
-	c := &ksCase{class: rapid.SampledFrom(keys.Classes()).Draw(rt, "class")}
+	// the class is drawn through a type name, so that classes with many key types get more keysets
+	c := &ksCase{class: keys.ClassOf(rapid.SampledFrom(keys.AllTypes()).Draw(rt, "class_of"))}
 	n := rapid.IntRange(1, 5).Draw(rt, "keys")
 	used := map[uint32]bool{}
 	type cand struct {
@@ -133,6 +134,7 @@ func drawKeyset(rt *rapid.T) *ksCase {
 		}
 		m.id = id
 		c.members = append(c.members, m.member)
+		evid.Add("member/"+m.info.Type+"/"+m.info.Variant+"/"+m.status.String(), 1)
 	}
 	h, err := mgr.Handle()
 	if err != nil {
